@@ -21,6 +21,12 @@ PORTS = "harness.adapters_c17:PortAdapter"
 STATS = "harness.adapters_c17:StatsAdapter"
 PORT_ACTIONS = ["FeaturesHS", "EarlySet", "EarlyDelete", "Barrier", "StatusSet", "StatusDelete", "Features"]
 STAT_ACTIONS = ["PartMore", "PartFinal", "Other"]
+# models with replies of NOT multipart-capable types that are split all the same (vendor / unknown / desc / aggr + MORE)
+STAT_ACTIONS_ODD = STAT_ACTIONS + ["OddMore", "OddFinal"]
+
+
+def stat_actions(cfg):
+  return STAT_ACTIONS_ODD if ("_S3o" in cfg or "_S2or" in cfg) else STAT_ACTIONS
 NVARIANTS = 3
 
 
@@ -173,7 +179,7 @@ def corrupt_stats(beh):
   for st in reversed(beh):
     if not st["exp"]["con"] and st["a"] == "Part":
       ev = {"t": st["args"]["t"], "x": st["args"]["x"], "e": []}
-      st["exp"] = {"con": [ev], "nexus": [ev]}      # an event before the final part
+      st["exp"] = {"con": [ev], "nexus": [ev], "free": []}      # an event before the final part
       return True
   return False
 
@@ -220,7 +226,8 @@ def corrupt_port_trace(tr):
 
 def corrupt_stats_trace(tr):
   for e in reversed(tr):
-    if e["a"] == "Part" and e["wf"] and e["obs"]["con"] and e["obs"]["con"][0]["e"]:
+    if (e["a"] == "Part" and e["wf"] and T9[e["args"]["k"] - 1] in MULTI and e["obs"]["con"] and
+        e["obs"]["con"][0]["e"]):
       e["obs"]["con"][0]["e"].pop()       # the event lost its last entry
       return True
   return False
@@ -240,10 +247,12 @@ def describe_port_event(ev):
 def describe_stats_event(ev):
   d = dict(spec="StatsAgg", action=ev["a"], via="trace")
   if ev["a"] == "Part":
-    d["type"] = T6[ev["args"]["k"] - 1]
+    d["type"] = T9[ev["args"]["k"] - 1]
     d["final"] = not ev["args"]["more"]
     if ev["args"]["raw"] != "none":
       d["raw_listeners"] = ev["args"]["raw"]
+    if ev.get("since"):
+      d["interleaved_with_split"] = ev["since"]
   else:
     d["kind"] = ev["args"]["kind"]
   if not ev["wf"]:
@@ -350,11 +359,13 @@ def drive_ports(arg):
   return tr
 
 
-# ---- stats driver (key table = MCStatsAgg T6 / X6 / M6)
-T6 = ["flow", "flow", "table", "port", "queue", "desc", "aggr"]
-X6 = [1, 2, 1, 2, 1, 2, 1]
-KMAX6 = [8, 8, 8, 8, 8, 1, 1]
-OTHERS = ["echo", "pktin", "portstatus", "barrier", "flowrem", "error", "config"]
+# ---- stats driver (key table = MCStatsAgg T9 / X9 / M9)
+T9 = ["flow", "flow", "table", "port", "queue", "desc", "aggr", "vendor", "unk"]
+X9 = [1, 2, 1, 2, 1, 2, 1, 1, 2]
+KMAX9 = [8, 8, 8, 8, 8, 2, 2, 3, 3]
+MULTI = ("flow", "table", "port", "queue")
+OTHERS = ["echo", "pktin", "portstatus", "barrier", "flowrem", "error", "config",
+          "vendormsg", "echoreply", "hello", "features"]
 
 
 def drive_stats(arg):
@@ -362,37 +373,45 @@ def drive_stats(arg):
   from harness.adapters_c17 import StatsAdapter
   rnd = random.Random(seed)
   ad = StatsAdapter(variant=rnd.randrange(NVARIANTS))
-  nparts = [0] * 7
-  nent = [0] * 7
-  gen = [0] * 7
-  style = rnd.choice(["sequential", "interleaved", "interleaved", "mixed"])
+  NK = len(T9)
+  nparts = [0] * NK
+  nent = [0] * NK
+  gen = [0] * NK
+  style = rnd.choice(["sequential", "interleaved", "interleaved", "mixed", "odd"])
+  odd_keys = [k for k in range(NK) if T9[k] not in MULTI]
   focus = None
   tr = []
   for _ in range(n):
+    since = ""
     if rnd.random() < 0.15:
       a, args = "Other", dict(kind=rnd.choice(OTHERS), k=0, more=False, n=0, raw="none")
       sargs = dict(kind=args["kind"])
     else:
-      open_keys = [k for k in range(7) if nparts[k] > 0 and nparts[k] < KMAX6[k]]
+      open_keys = [k for k in range(NK) if nparts[k] > 0 and nparts[k] < KMAX9[k]]
       if style == "sequential" and open_keys:
         k = open_keys[0]
       elif style == "mixed" and focus in open_keys and rnd.random() < 0.7:
         k = focus
+      elif style == "odd" and rnd.random() < 0.5:
+        k = rnd.choice(odd_keys)         # replies of not multipart-capable types in between, often
       else:
-        k = rnd.choice([k for k in range(7) if nparts[k] < KMAX6[k]] or [0])
+        k = rnd.choice([k for k in range(NK) if nparts[k] < KMAX9[k]] or [0])
       focus = k
-      if nparts[k] >= KMAX6[k]:
+      if nparts[k] >= KMAX9[k]:
         continue
-      single = T6[k] in ("desc", "aggr")
-      more = (not single) and nparts[k] + 1 < KMAX6[k] and rnd.random() < 0.6
-      cnt = 1 if single else rnd.choice([0, 1, 1, 2, 3, 5])
+      t = T9[k]
+      multi = t in MULTI
+      # (the spec splits a not multipart-capable type only where there is room left for the final part)
+      more = nparts[k] + 1 < KMAX9[k] and rnd.random() < (0.6 if multi else 0.5)
+      cnt = rnd.choice([0, 1, 1, 2, 3, 5]) if multi else (1 if t in ("desc", "aggr") else rnd.choice([0, 1, 2]))
       a = "Part"
       raw = "none" if rnd.random() < 0.4 else rnd.choice(MODES)
       args = dict(kind="-", k=k + 1, more=more, n=cnt, raw=raw)
-      sargs = dict(k=k + 1, t=T6[k], x=X6[k], g=gen[k], first=nent[k] + 1, n=cnt, more=more, raw=raw)
+      sargs = dict(k=k + 1, t=t, x=X9[k], g=gen[k], first=nent[k] + 1, n=cnt, more=more, raw=raw)
       if more:
         nparts[k] += 1
-        nent[k] += cnt
+        if t not in ("vendor", "unk"):       # opaque bodies carry no entries
+          nent[k] += cnt
       else:
         nparts[k] = 0
         nent[k] = 0
@@ -405,6 +424,8 @@ def drive_stats(arg):
       raise
     except Exception as e:
       obs, wf, why = None, False, "exception %s" % type(e).__name__
+    if a == "Part":
+      since = ",".join(ad.cur_since)
     out = dict(con=[], nexus=[])
     if wf:
       if not (isinstance(obs, dict) and "con" in obs and "nexus" in obs):
@@ -416,8 +437,8 @@ def drive_stats(arg):
                     all(len(t) == 3 and all(isinstance(x, int) for x in t) for t in ev["e"])):
               wf, why = False, "event with unidentifiable request or entries"
         if wf:
-          out = obs
-    ev = dict(a=a, args=args, obs=out, wf=wf)
+          out = dict(con=obs["con"], nexus=obs["nexus"])
+    ev = dict(a=a, args=args, obs=out, wf=wf, since=since)
     if why:
       ev["why"] = why
     tr.append(ev)
@@ -470,6 +491,10 @@ def run(ctx):
     sgraphs += ["EX_S2_%s.cfg" % t for t in types]
     # the listener environment: every way other components may treat the raw per-part event / PortStatus
     sgraphs += ["EX_S2r_flow.cfg"] if quick else ["EX_S2r_%s.cfg" % t for t in types]
+    # replies of NOT multipart-capable types (vendor / unknown stats type, desc / aggregate) that are split with
+    # the MORE flag all the same, as "a second request's reply" while a splittable reply is being assembled
+    sgraphs += ["EX_S3o_flow.cfg", "EX_S3o_port.cfg", "EX_S2or_flow.cfg"] if quick else (
+        ["EX_S3ow_%s.cfg" % t for t in types] + ["EX_S2or_%s.cfg" % t for t in types])
     pgraphs += [("EX_edges_P2l.cfg", 2)]
     if not quick:
       mcs += [("MCPortView", "MC_P2w.cfg", PORT_ACTIONS), ("MCPortView", "MC_hist4.cfg", PORT_ACTIONS),
@@ -479,12 +504,12 @@ def run(ctx):
     for cfg, _ in pgraphs:
       jobs.graph("MCPortView", cfg, PORT_ACTIONS)
     for cfg in sgraphs:
-      jobs.graph("MCStatsAgg", cfg, STAT_ACTIONS)
+      jobs.graph("MCStatsAgg", cfg, stat_actions(cfg))
     jobs.sim("MCPortView", "SIM_P4.cfg", num, 16)
-    jobs.sim("MCStatsAgg", "SIM_S7.cfg", num, 30)
+    jobs.sim("MCStatsAgg", "SIM_S9.cfg", num, 30)
     if not quick:
       jobs.sim("MCPortView", "SIM_P4_deep.cfg", 600, 34, 1)
-      jobs.sim("MCStatsAgg", "SIM_S7_deep.cfg", 600, 80, 2)
+      jobs.sim("MCStatsAgg", "SIM_S9_deep.cfg", 600, 80, 2)
     for m, cfg, acts in mcs:
       jobs.mc(m, cfg, acts)
 
@@ -514,9 +539,9 @@ def run(ctx):
       ctx.notes["negative_controls_replay"] = "corrupted expectations were reported (ports, stats)"
 
     # 3. long random behaviours chosen by TLC
-    sims = [("SIM_P4.cfg", PORTS, dict(NP=4), prep_ports), ("SIM_S7.cfg", STATS, dict(), None)]
+    sims = [("SIM_P4.cfg", PORTS, dict(NP=4), prep_ports), ("SIM_S9.cfg", STATS, dict(), None)]
     if not quick:
-      sims += [("SIM_P4_deep.cfg", PORTS, dict(NP=4), prep_ports), ("SIM_S7_deep.cfg", STATS, dict(), None)]
+      sims += [("SIM_P4_deep.cfg", PORTS, dict(NP=4), prep_ports), ("SIM_S9_deep.cfg", STATS, dict(), None)]
     for cfg, adapter, params, prep in sims:
       behs = jobs.get(cfg)
       if prep:
